@@ -462,6 +462,98 @@ class Slip(Part):
         return out
 
 
+# ------------------------------------------------------------------ histories of solvable / unsolvable states on one System
+
+class Rerun(Part):
+    """The same System alternates between a solvable and an unsolvable state: every verdict must describe the CURRENT run."""
+    name = 'rerun'
+    chunk = 2
+    timeout = 600.0
+    nproc = 8
+    OPS = ['good', 'overload', 'tap0', 'nan_inf']
+
+    def describe(self, tier):
+        d = 3 if tier == 'quick' else 4
+        return (f'one 3-bus System with a classical machine: all sequences of depth <= {d} over states {self.OPS} (parameters '
+                f'altered in place), PFlow.run after each, then TDS.run and EIG.run on the last: a failed run after a successful one '
+                f'must be reported as failed and dependants must refuse')
+
+    def cases(self, tier):
+        d = 3 if tier == 'quick' else 4
+        out = []
+        for r in range(2, d + 1):
+            out += [list(q) for q in itertools.product(range(len(self.OPS)), repeat=r)]
+        return out
+
+    def execute(self, case):
+        import andes
+        out = Outcome()
+        seen = set()
+
+        def bad(sig, msg):
+            if sig not in seen:
+                seen.add(sig)
+                out.bad(sig, msg)
+        spec, _ = faulty_spec('none')
+        ss = andes.System(no_output=True, default_config=True)
+        for m in ('Bus', 'Line', 'Slack', 'PV', 'PQ', 'Shunt'):
+            for d in spec[m]:
+                ss.add(m, dict(d))
+        ss.add('GENCLS', dict(idx='M1', bus=1, gen='S1', Vn=spec['Bus'][0]['Vn'], M=6.0))
+        ss.setup()
+        systems.quiet_tds(ss)
+        p_ok = [float(v) for v in ss.PQ.p0.v]
+        tap_ok = float(ss.Line.tap.v[1])
+        log = []
+        last = None
+        for step, k in enumerate(case):
+            state = self.OPS[k]
+            # every state is written completely, so the System is exactly in that state whatever came before
+            ss.PQ.p0.v[:] = [p * (100.0 if state == 'overload' else 1.0) for p in p_ok]
+            ss.Line.tap.v[1] = 0.0 if state == 'tap0' else tap_ok
+            ss.PQ.q0.v[0] = float('inf') if state == 'nan_inf' else spec['PQ'][0]['q0']
+            hist = [self.OPS[j] for j in case[:step + 1]]
+            try:
+                ok = ss.PFlow.run()
+            except Exception as e:
+                bad(f'routine_raises:pflow:{type(e).__name__}', f'after {hist}: PFlow.run raised {type(e).__name__}: {e}')
+                break
+            log.append([state, bool(ok), int(ss.exit_code)])
+            finite = bool(np.all(np.isfinite(ss.dae.y)))
+            kind = 'after_success' if any(self.OPS[j] == 'good' for j in case[:step]) else 'first'
+            if state == 'good':
+                pass        # a (conservative) failure on good data after a NaN state is not against the property: observed only
+            else:
+                if ok:
+                    bad(f'failed_run_reported_as_success:{kind}', f'after {hist}: PFlow.run returned True in state {state} '
+                                                                   f'(finite = {finite}, exit code {ss.exit_code})')
+                elif ss.exit_code == 0:
+                    bad(f'exit_zero_on_failure:{kind}', f'after {hist}: returned False with exit code 0')
+            if ok and ss.exit_code != 0:
+                bad('exit_nonzero_on_success:rerun', f'after {hist}: exit code {ss.exit_code} with a True flag')
+            last = (state, ok)
+        if last is not None:
+            state, ok = last
+            for r in ('tds', 'eig'):
+                try:
+                    if r == 'tds':
+                        ss.TDS.config.tf = 0.1
+                        ret = ss.TDS.run(no_summary=True)
+                    else:
+                        ret = ss.EIG.run()
+                except Exception as e:
+                    bad(f'routine_raises:{r}:{type(e).__name__}:rerun', f'after {[self.OPS[j] for j in case]}: {type(e).__name__}: {e}')
+                    continue
+                log.append([r, bool(ret)])
+                if state != 'good' and ret:
+                    bad(f'dependent_routine_runs_on_failed_pflow:{r}:rerun', f'after {[self.OPS[j] for j in case]}: {r.upper()}.run '
+                                                                             f'returned True')
+        out.obs = dict(log=log)
+        out.transitions = len(case) + 2
+        out.nontrivial = any(self.OPS[k] != 'good' for k in case)
+        return out
+
+
 # ------------------------------------------------------------------ corrupt files
 
 class Files(Part):
@@ -555,7 +647,7 @@ class Files(Part):
 
 
 def parts(tier):
-    return [PFlowFaults(), TDSFaults(), Slip(), Files()]
+    return [PFlowFaults(), TDSFaults(), Slip(), Rerun(), Files()]
 
 
 def run(run, only=None):
